@@ -46,9 +46,44 @@ def _root_place(body, o, depth=8):
 
 
 def run(ctx, rep):
+    from rules import invlib
+    invlib.newtype_invariant(ctx, rep, "C10")
     F = ctx.facts()
     cg = ctx.cg()
     ok = OkImplies(F, cg)
+    # ---- C10.open: the path-based front end --------------------------------------------------------------------
+    ub = anchor(F, rep, "C10.open", "metadata::update")
+    if ub is not None:
+        uf = [(i, t) for i, t in ub.calls() if strip_generics(callee_name(t)) == "metadata::update_file"]
+        rep.check("C10.open", "update hands the file to update_file", len(uf) == 1, loc_of(ub))
+        tr = [(i, t) for i, t in ub.calls() if re.search(r"OpenOptions::truncate$", callee_name(t))]
+        for i, t in uf[:1]:
+            # the original: opened without truncation and without creating it
+            oc = [c for k, c in origins(ub, t["a"][0]) if k == "call"]
+            sl = backward_slice(ub, t["a"][0])
+            names = [strip_generics(callee_name(c)).rsplit("::", 1)[-1] for c in sl["calls"]]
+            t_false = [c for c in sl["calls"] if re.search(r"OpenOptions::truncate$", callee_name(c)) and op_int(c["a"][1]) == 0]
+            t_true = [c for c in sl["calls"] if re.search(r"OpenOptions::truncate$", callee_name(c)) and op_int(c["a"][1]) != 0]
+            rep.check("C10.open", "the original is opened for reading and writing, never truncated", "open" in names and not t_true and
+                      not any(re.search(r"fs::File::create$", callee_name(c)) for c in sl["calls"]), loc_of(ub, t), str(sorted(set(names))),
+                      "update opens the original with truncation: the file is emptied before its blocks are read")
+            # the rebuilt file: created / truncated
+            cl = [F.body(c) for c in t["cls"]]
+            cl = [c for c in cl if c is not None and c.j["argc"] == 1]
+            good = False
+            detail = ""
+            for cb in cl:
+                for _, ct in cb.calls():
+                    cn = callee_name(ct)
+                    if re.search(r"std::fs::File::create$", cn):
+                        good, detail = True, "File::create"
+                    elif re.search(r"OpenOptions::open$", cn):
+                        ss = slice_with_captures(F, cb, ct["a"][0])
+                        tt = [c for c in ss["calls"] if re.search(r"OpenOptions::truncate$", callee_name(c))]
+                        if tt and all(op_int(c["a"][1]) == 1 for c in tt) and any(re.search(r"OpenOptions::write$", callee_name(c)) for c in ss["calls"]):
+                            good, detail = True, "OpenOptions with truncate(true)"
+            rep.check("C10.open", "the rebuilt file is opened truncated (File::create or truncate(true))", good, loc_of(ub, t), detail,
+                      "the closure that opens the destination of a rebuild does not truncate it: when the metadata shrinks, stale bytes of the old file remain after the last frame")
     b = anchor(F, rep, "C10.validate", "metadata::update_file")
     if b is None:
         return
